@@ -79,6 +79,13 @@ structure E2E where
   joins : List (Nat × String) := []
   /-- the paused clock (ms) -/
   now : Nat := 0
+  /-- the relay direction (0: A→B, 1: B→A) that stands still after its sender's authentication
+  frames: the receiving node has not seen the peer's Spawn / PgJoin / Ready yet, so it owns no
+  proxy at all and is not ready -/
+  held : Option Nat := none
+
+/-- node `d` (0 = A, 1 = B) has not received the peer's initial state: it owns no proxies -/
+def E2E.starved (e : E2E) (d : Nat) : Bool := e.held == some (1 - d)
 
 def replyOf (t req : Nat) : Nat := req * 7 + t + 1
 
@@ -147,6 +154,7 @@ def stepE2E (e : E2E) (w : List String) (impl : String) : Option (E2E × StepOut
     | some d, some t, some sender, some seq =>
       let e := { e with settled := false }
       let p := e.px d t
+      if e.starved d then some (e, { model := "noproxy" }) else
       match e.pstate t with
       | 3 => some (e, { model := "noproxy" })
       | 0 => some (e.setPx { p with net := p.net.step (.cast sender seq) }, { model := "ok", nontrivial := true })
@@ -176,6 +184,9 @@ def stepE2E (e : E2E) (w : List String) (impl : String) : Option (E2E × StepOut
       let e := { e with settled := false }
       let p := e.px d t
       let dl := some (e.now + ms)
+      if e.starved d then
+        some ({ e with calls := e.calls ++ [{ id, dir := d, t, req, hold := true, port := none, nocall := true }] }, { model := "noproxy" })
+      else
       match e.pstate t with
       | 3 => some ({ e with calls := e.calls ++ [{ id, dir := d, t, req, hold := true, port := none, nocall := true }] }, { model := "noproxy" })
       | 0 =>
@@ -202,6 +213,9 @@ def stepE2E (e : E2E) (w : List String) (impl : String) : Option (E2E × StepOut
       let e := { e with settled := false }
       let p := e.px d t
       let hold := kind == "hold"
+      if e.starved d then
+        some ({ e with calls := e.calls ++ [{ id, dir := d, t, req, hold, port := none, nocall := true }] }, { model := "noproxy" })
+      else
       match e.pstate t with
       | 3 => some ({ e with calls := e.calls ++ [{ id, dir := d, t, req, hold, port := none, nocall := true }] }, { model := "noproxy" })
       | 0 =>
@@ -318,7 +332,8 @@ def stepE2E (e : E2E) (w : List String) (impl : String) : Option (E2E × StepOut
   | ["members", g] =>
     let calm := e.settled && (e.link == 0 || e.link == 2)
     let ms := e.joins.filter fun (t, g') => g' == g && e.probes[t]? == some 0
-    let want := ms.flatMap fun (t, _) => [s!"L{t}"] ++ (if e.link == 0 then [s!"Ra{t}", s!"Rb{t}"] else [])
+    let want := ms.flatMap fun (t, _) => [s!"L{t}"] ++
+      (if e.link == 0 && !e.starved 0 then [s!"Ra{t}"] else []) ++ (if e.link == 0 && !e.starved 1 then [s!"Rb{t}"] else [])
     let want := (want.toArray.qsort (· < ·)).toList
     let wantS := if want.isEmpty then "-" else ",".intercalate want
     -- safety: no proxy of a stopped probe / over a closed link stays in a group
@@ -326,7 +341,9 @@ def stepE2E (e : E2E) (w : List String) (impl : String) : Option (E2E × StepOut
     let stale := got.any fun m =>
       m.startsWith "R" && (e.settled && (e.link == 2 ||
         (match (m.drop 2).toString.toNat? with | some t => e.probes[t]? == some 2 | none => true)))
-    some (e, { model := if calm then wantS else impl, oracle := if stale then ["mirror"] else [],
+    -- at rest every advertised live member must be mirrored by the proxies that exist
+    let missing := calm && want.any fun m => m.startsWith "R" && !got.contains m
+    some (e, { model := if calm then wantS else impl, oracle := if stale || missing then ["mirror"] else [],
                nontrivial := got.length > 1, key := some s!"members {impl}" })
   | ["spawn"] => some ({ e with probes := e.probes ++ [3], joins := e.joins ++ [(e.probes.length, s!"p{e.probes.length}")],
                                  settled := false }, { model := "ok" })
@@ -338,13 +355,15 @@ def stepE2E (e : E2E) (w : List String) (impl : String) : Option (E2E × StepOut
       ({ e with pxs := pxs, probes := e.probes.set t (if e.probes[t]? == some 2 then 2 else 1), settled := false }, { model := "ok" })
   | ["status", d, t] =>
     match parseDir? d, t.toNat? with
-    | some _, some t =>
+    | some d, some t =>
+      if e.starved d then some (e, { model := "none" }) else
       let st := e.pstate t
       let calm := e.settled
       let model := if calm && st == 0 then "Running" else if calm && st == 2 && impl != "none" then "Stopped" else impl
       some (e, { model := model,
                  oracle := if calm && st == 2 && impl != "none" && impl != "Stopped" then ["mirror"] else [] })
     | _, _ => none
+  | ["release"] => some ({ e with held := none, settled := false }, { model := "ok", nontrivial := e.held.isSome })
   | ["cutafter", _, _] =>
     let e := { e with pxs := e.pxs.map fun (p : PX) => { p with exact := false } }
     some ({ e with link := if e.link == 2 then 2 else 4, settled := false }, { model := "ok" })
@@ -455,6 +474,15 @@ def step (st : St) (op impl : String) : St × StepOut :=
                  e := { probes := List.replicate n 0, joins := (List.range n).map fun t => (t, s!"p{t}") } },
        { model := "ready a=1 b=0", nontrivial := true })
     | none => (st, { model := "bad-op" })
+  | ["e2e", _, n, h] =>
+    match n.toNat?, parseDir? h with
+    | some n, some d =>
+      -- the node that receives the held direction is still syncing, the other one is ready
+      let flags := if d == 0 then "a=ready b=syncing" else "a=syncing b=ready"
+      ({ st with inE2E := true,
+                 e := { probes := List.replicate n 0, joins := (List.range n).map fun t => (t, s!"p{t}"), held := some d } },
+       { model := s!"ready a=1 b=0 held={h} {flags}", nontrivial := true })
+    | _, _ => (st, { model := "bad-op" })
   | ["proxy"] => ({ st with inE2E := false, p := {} }, { model := "ok" })
   | _ =>
     if st.inE2E then
